@@ -17,6 +17,8 @@ use serde_json::json;
 
 pub struct C09;
 
+const T_SLOT: u32 = 20;
+
 /// one line of the `tokens` dump -> (start position, token text) or the error text
 pub fn parse_token_line(l: &str) -> Option<((u32, u32), String)> {
     let rest = l.strip_prefix("Ok(((")?;
@@ -65,6 +67,31 @@ pub fn token_texts(dump: &str) -> Vec<String> {
             }
         }
     }
+    out
+}
+
+/// a diagnostic raised inside a slot carries a second, slot-relative position after the first:
+/// `L:C: l:c: message`; layout inside the slot legitimately moves it
+fn erase_slot_relative(o: &Outcome) -> Outcome {
+    let mut out = o.clone();
+    let mut lines = vec![];
+    for line in o.msg.lines() {
+        let (prefix, l) = match line.find("case.sd:") {
+            Some(i) => (&line[..i + 8], &line[i + 8..]),
+            None => ("", line),
+        };
+        match parse_pos(l) {
+            Some((p, rest)) => {
+                let mut rest = rest.to_string();
+                while let Some((_, r2)) = parse_pos(rest.trim_start()) {
+                    rest = format!(" @: {}", r2);
+                }
+                lines.push(format!("{}{}:{}:{}", prefix, p.0, p.1, rest));
+            }
+            None => lines.push(line.to_string()),
+        }
+    }
+    out.msg = lines.join("\n");
     out
 }
 
@@ -324,7 +351,7 @@ impl Check for C09 {
     fn run(&self, ctx: &mut Ctx) -> Result<(), MachineryError> {
         let corp = corpus();
         ctx.rule = format!(
-            "deviation-bounded: corpus of {} programs (the repository's test scripts and generated programs) x every single layout edit at every token boundary (space / tab / CR after a token; comment before an existing newline; comment line or blank lines where a newline is neutral; newline <-> `;`; doubled terminators; line break and CR LF + indentation after each continuation token; line break after every other token compared with `;` there; `_` after every digit of every integer literal; every ASCII character of every plain string literal as \\xhh and \\xHH; leading layout), k = 1{}; plus a line break after each of the 25 continuation tokens and 13 non-continuation tokens; non-trivial = every edited variant",
+            "deviation-bounded: corpus of {} programs (the repository's test scripts and generated programs) x every single layout edit at every token boundary (space / tab / CR after a token; comment before an existing newline; comment line or blank lines where a newline is neutral; newline <-> `;`; doubled terminators; line break and CR LF + indentation after each continuation token; line break after every other token compared with `;` there; `_` after every digit of every integer literal; every ASCII character of every plain string literal as \\xhh and \\xHH; leading layout), k = 1{}; plus spaces, tabs, a leading line break or terminator inside every interpolation slot of the corpus; plus a line break after each of the 25 continuation tokens and 13 non-continuation tokens; non-trivial = every edited variant",
             corp.len(),
             if ctx.tier == Tier::Thorough { "; k = 2: all ordered pairs of edits on programs of at most 12 tokens" } else { "" }
         );
@@ -413,6 +440,43 @@ impl Check for C09 {
             },
             None => Verdict::Pass,
         })?;
+        // layout inside interpolation slots: same output, same failure, same message
+        {
+            let mut cases = vec![];
+            let mut pairs: Vec<(usize, usize, String, String)> = vec![];
+            for (name, src) in &corp {
+                let eds = crate::layout::slot_edits(src);
+                if eds.is_empty() {
+                    continue;
+                }
+                let bi = cases.len();
+                let mut c = Case::new(src.clone(), T_SLOT, format!("{} (original)", name));
+                c.no_ref = true;
+                cases.push(c);
+                for (text, desc) in eds {
+                    let mut c = Case::new(text, T_SLOT, format!("{}: {}", name, desc));
+                    c.no_ref = true;
+                    pairs.push((bi, cases.len(), name.clone(), desc));
+                    cases.push(c);
+                }
+            }
+            let n_slot = pairs.len();
+            let srcs: Vec<String> = cases.iter().map(|c| c.src.clone()).collect();
+            let judged = ctx.judge(cases, |_c, _r, _o| Verdict::Pass)?;
+            let by_src: std::collections::HashMap<&str, &Judged> = judged.iter().map(|j| (j.case.src.as_str(), j)).collect();
+            for (bi, vi, name, desc) in pairs {
+                let (b, v) = match (by_src.get(srcs[bi].as_str()), by_src.get(srcs[vi].as_str())) {
+                    (Some(b), Some(v)) => (*b, *v),
+                    _ => continue, // not judged (the run was cut short after repeated hangs)
+                };
+                if let Some((clause, detail)) = compare_pair(&b.case.src, &v.case.src, None, &[], &erase_slot_relative(&b.o), &[], &erase_slot_relative(&v.o), "the original") {
+                    let mut c = v.case.clone();
+                    c.companion = Some(b.case.src.clone());
+                    ctx.report(&c, None, &v.o, clause, format!("{} [{}]: {}", name, desc, detail));
+                }
+            }
+            ctx.extra.insert("slot_layout_variants".into(), json!(n_slot));
+        }
         ctx.extra.insert("cli_layout_variants".into(), json!(n_cli));
         ctx.guard("a line break was placed after every continuation token of the statement", CONTINUATION.iter().all(|c| seen_cont.contains(*c)));
         ctx.extra.insert(
@@ -428,6 +492,16 @@ impl Check for C09 {
             Some(b) => b.clone(),
             None => return Ok(None),
         };
+        if c.tag == T_SLOT {
+            let reqs = [crate::subject::Req { mode: Mode::Run, label: "case.sd", src: &base }, crate::subject::Req { mode: Mode::Run, label: "case.sd", src: &c.src }];
+            let o = pool.run(&reqs)?;
+            println!("companion: {:?} -> {:?} {:?} {:?}", base, o[0].class, o[0].out_str(), o[0].msg);
+            println!("variant:   {:?} -> {:?} {:?} {:?}", c.src, o[1].class, o[1].out_str(), o[1].msg);
+            return Ok(Some(match compare_pair(&base, &c.src, None, &[], &erase_slot_relative(&o[0]), &[], &erase_slot_relative(&o[1]), "the companion program") {
+                Some((clause, detail)) => viol(clause, detail),
+                None => Verdict::Pass,
+            }));
+        }
         let reqs = [
             crate::subject::Req { mode: Mode::Tokens, label: "case.sd", src: &base },
             crate::subject::Req { mode: Mode::Run, label: "case.sd", src: &base },
